@@ -38,7 +38,12 @@ VARIANTS = [
      "__np__": ["range_x"]},
     {"model_key": "hertz_cone", "range_type": "relative cp",
      "range_x": [-1e-6, 3e-7]},
+    # twins of variant 0: other settings, bit-identical fit
+    {"model_key": "hertz_para", "optimal_fit_num_samples": 33},
+    {"model_key": "hertz_para", "range_x": [-1.0, 1.0]},
+    {"model_key": "hertz_para", "method_kws": {"max_nfev": 400}},
 ]
+TWINS_OF_0 = [5, 11, 12, 13]
 PIPES = [
     (PIPE, {}),
     (PIPE, {"correct_tip_offset": {"method": "gradient_zero_crossing"}}),
@@ -291,10 +296,14 @@ class ContainerEngine:
         cvs = []
         for _ in range(ncurves):
             nv = rng.choice([1, 2, 2, 3])
+            var = rng.sample(range(len(VARIANTS)), nv)
+            if rng.random() < 0.5:
+                # settings that differ but give the very same fit
+                var = [0, rng.choice(TWINS_OF_0)] + var[:1]
             cvs.append({"file": rng.randrange(nfiles),
                         "enum": rng.randrange(4),
                         "pipe": rng.choice([0, 0, 0, 1, 2, 3, 4, 5, 5, 6]),
-                        "variants": rng.sample(range(len(VARIANTS)), nv)})
+                        "variants": var})
         ncont = rng.choice([1, 1, 2])
         nops = rng.choice([3, 4, 5, 6] if tier == "quick"
                           else [4, 6, 8, 9])
@@ -309,7 +318,9 @@ class ContainerEngine:
             op = {"op": "save", "curve": rng.randrange(ncurves),
                   "variant": rng.randrange(3),
                   "container": rng.randrange(ncont),
-                  "user": {"rate": rng.randint(-1, 10),
+                  "user": {"rate": rng.choice(
+                      [rng.randint(-1, 10), rng.randint(-1, 10),
+                       rng.choice([7.5, 0.5, 9.25, 2.0])]),
                            "name": rng.choice(NAMES),
                            "comment": rng.choice(COMMENTS)},
                   "dt": rng.choice([0.5, 3.0, 60.0, -5.0])}
@@ -330,7 +341,8 @@ class ContainerEngine:
                           if not k.startswith("_")}
             if sampled_faults and rng.random() < 0.3:
                 op["fault"] = {"seam": "h5write", "at": rng.randint(1, 47),
-                               "exc": rng.choice(["ENOSPC", "EIO"]),
+                               "exc": rng.choice(["ENOSPC", "EIO",
+                                                  "KeyboardInterrupt"]),
                                "when": rng.choice(["before", "after"])}
                 if rng.random() < 0.6:
                     op["retry"] = True
@@ -769,7 +781,8 @@ class ContainerEngine:
                 self._copy(base, work)
                 refc = copy.deepcopy(w.ref[k])
                 fault = {"seam": "h5write", "at": at,
-                         "exc": "ENOSPC" if at % 2 else "EIO", "when": when}
+                         "exc": ["ENOSPC", "EIO", "KeyboardInterrupt"][at % 3],
+                         "when": when}
                 self.failed_keys[id(refc)] = set(
                     self.failed_keys.get(id(w.ref[k]), set()))
                 v = self.save(work, refc, ci, op, i, fault=fault)
